@@ -41,6 +41,19 @@ def gen_encode(words, ent):
     return [words[(v >> (11 * (n - 1 - i))) & 2047] for i in range(n)]
 
 
+def sentence_with_word(rng, words, wi, sz=None, pos=None):
+    """(entropy, BIP-39 sentence, position): a valid sentence over `words` (hashlib checksum) whose word at `pos` (never the last one, which
+    carries the checksum bits) is the word of index `wi`; the other bits are random"""
+    sz = sz or rng.choice(SIZES)
+    total = sz * 8 + sz // 4
+    n = total // 11
+    pos = rng.randrange(n - 1) if pos is None else pos
+    shift = 11 * (n - 1 - pos)
+    v = (rng.getrandbits(total) & ~(2047 << shift)) | (wi << shift)
+    ent = (v >> (sz // 4)).to_bytes(sz, "big")
+    return ent, spec_encode(words, ent), pos
+
+
 def dec_case(lang, sentence, cls, mode="plain"):
     return Case("bip39dec", [lang, mode, tx(sentence), oracle_for(sentence)], cls)
 
@@ -245,6 +258,16 @@ def gen(rng, tier):
             for l_ in (A, B, "auto"):
                 yield dec_case(l_, s, "shared-words")
                 yield dec_case(l_, s, "shared-words-ck", "ck")
+    # "all from one supported list" is decided by ONE reading of a token — lower-cased, then NFKD: tokens that another folding (full case
+    # folding, upper-then-lower, NFKC case folding, dropped combining marks or ignorable characters) would identify with a list word are
+    # not that word; compatibility / case forms whose named reading IS the word are spellings of it
+    from harness.props.mnemonic_common import fold_candidates
+    for kind, lang, wi, tok, ok in fold_candidates(rng, lists, 6 if tier == "quick" else 80):
+        _ent, ws, pos = sentence_with_word(rng, lists[lang], wi)
+        ws[pos] = tok
+        s = " ".join(ws)
+        for l_ in (lang, "auto"):
+            yield dec_case(l_, s, "fold-spelling" if ok else "neg-fold-" + kind.replace(" ", "-"), rng.choice(["plain", "ck"]))
 
 
 def _observation_points(rng, tier, rep):
@@ -355,6 +378,128 @@ def _first_use(rng, tier, rep):
     return n
 
 
+def _rejected_variants(rng, words, ws, foreign):
+    """[(kind, sentence)] that the converse clause refuses, derived from the valid sentence `ws`: a token that is in no list at word
+    position 0 / 1 / 2 / 3 / any / last, a word of another list, one word more or fewer, a checksum-damaged sentence, a cut of the sentence
+    (legal count, wrong checksum bits almost surely), nothing at all.  (Which of them IS refused is not assumed: the answers of a used
+    object are compared with those of a fresh one.)"""
+    n = len(ws)
+    out = []
+    for k in sorted({0, 1, 2, 3, rng.randrange(n), n - 1}):
+        bad = list(ws); bad[k] = rng.choice(["qqqqzzzz", "x", "abandonn", "zoo1"])
+        out.append(("token in no list at word %d of %d" % (k, n), " ".join(bad)))
+    k = rng.randrange(1, n)
+    bad = list(ws); bad[k] = rng.choice(foreign)
+    out.append(("word of another list at word %d of %d" % (k, n), " ".join(bad)))
+    out.append(("one word fewer", " ".join(ws[:-1])))
+    out.append(("one word more", " ".join(ws + ws[:1])))
+    bad = list(ws); bad[-1] = words[(words.index(bad[-1]) ^ 1)]
+    out.append(("checksum bit flipped", " ".join(bad)))
+    if n > 12:
+        out.append(("last 12 words of a valid %d-word sentence" % n, " ".join(ws[n - 12:])))
+        out.append(("first 12 words of a valid %d-word sentence" % n, " ".join(ws[:12])))
+    out.append(("empty", ""))
+    return out
+
+
+def _history(rng, tier, rep):
+    """'accepted if and only if' speaks about the word sequence: a decoder / validator object (language given or auto-detecting) that has
+    been asked before — about valid sentences and about sentences it refused, at whatever word the refusal happened and for whatever reason —
+    gives for the next sentence the answer a fresh object gives (each of the four observation points, str and object form)."""
+    from bip_utils import Bip39Mnemonic
+    from harness.props.mnemonic_common import history_independent
+    lists = {l: words_of(l) for l in BIP39_LANGS}
+    sets = {l: set(lists[l]) for l in BIP39_LANGS}
+    n = 0
+    for lang in (BIP39_LANGS if tier == "thorough" else ["ENGLISH"] + rng.sample([l for l in BIP39_LANGS if l != "ENGLISH"], 3)):
+        words = lists[lang]
+        foreign = [w for l in BIP39_LANGS if l != lang for w in rng.sample(lists[l], 8) if w not in words]
+        script = []
+        for sz in rng.sample(SIZES, len(SIZES)):
+            ws = spec_encode(words, bytes(rng.randrange(256) for _ in range(sz)))
+            good = ("valid %d-word sentence" % len(ws), " ".join(ws))
+            for rej in _rejected_variants(rng, words, ws, foreign):
+                script += [rej, good]
+            script.append(good)
+        if tier == "quick":          # every rejection kind stays in, each followed by a valid sentence
+            pairs = [script[i:i + 2] for i in range(0, len(script) - 1, 2)]
+            script = [x for pr in rng.sample(pairs, min(len(pairs), 28)) for x in pr]
+        L = Bip39Languages[lang]
+        for lg_name, lg in ((lang, L), ("auto-detected", None)):
+            # auto-detecting objects are only asked about token sequences that at most one list can read (otherwise which list answers is the
+            # listed ambiguity, not this clause)
+            sc = [(k, p) for k, p in script if lg is not None or not p.split() or sum(1 for l in BIP39_LANGS if all(w in sets[l] for w in p.split())) <= 1]
+            as_obj = lambda p: Bip39Mnemonic.FromString(p)      # noqa
+            points = [("Bip39MnemonicDecoder(%s).Decode" % lg_name, lambda: Bip39MnemonicDecoder(lg), lambda o, p: o.Decode(p)),
+                      ("Bip39MnemonicDecoder(%s).DecodeWithChecksum" % lg_name, lambda: Bip39MnemonicDecoder(lg), lambda o, p: o.DecodeWithChecksum(p)),
+                      ("Bip39MnemonicValidator(%s).IsValid" % lg_name, lambda: Bip39MnemonicValidator(lg), lambda o, p: o.IsValid(p)),
+                      ("Bip39MnemonicValidator(%s).Validate" % lg_name, lambda: Bip39MnemonicValidator(lg), lambda o, p: o.Validate(p)),
+                      ("Bip39MnemonicDecoder(%s).Decode(Bip39Mnemonic object)" % lg_name, lambda: Bip39MnemonicDecoder(lg), lambda o, p: o.Decode(as_obj(p))),
+                      ("Bip39MnemonicValidator(%s).IsValid, then Decode on a decoder, alternating" % lg_name,
+                       lambda: (Bip39MnemonicValidator(lg), Bip39MnemonicDecoder(lg)), lambda o, p: (o[0].IsValid(p), o[1].Decode(p).hex() if o[0].IsValid(p) else None))]
+            n += history_independent(rep, "BIP-39 %s" % lang, points, sc)
+    return n
+
+
+def _mnemonic_objects(rng, tier, rep):
+    """the sentence handed over as a Bip39Mnemonic / Mnemonic object: same verdict at every attempt as for the str, object left as it was"""
+    from bip_utils import Bip39Mnemonic
+    from bip_utils.utils.mnemonic import Mnemonic
+    from harness.props.mnemonic_common import mnemonic_objects_stable
+    n = 0
+    for lang in rng.sample(BIP39_LANGS, 2 if tier == "quick" else 9):
+        words = words_of(lang)
+        index = {w: i for i, w in enumerate(words)}
+        L = Bip39Languages[lang]
+        ent = bytes(rng.randrange(256) for _ in range(rng.choice(SIZES)))
+        ws = spec_encode(words, ent)
+        cases = [("valid", ws)] + [(k, w) for k, w in checksum_damage(rng, words, index, ent)[:2]] + [("one word fewer", ws[:-1])]
+        forms = [("Bip39Mnemonic.FromList", lambda t: Bip39Mnemonic.FromList(t)), ("Bip39Mnemonic(list)", lambda t: Bip39Mnemonic(t)),
+                 ("Mnemonic.FromList", lambda t: Mnemonic.FromList(t)), ("Bip39Mnemonic.FromString", lambda t: Bip39Mnemonic.FromString(" ".join(t)))]
+        points = [("Bip39MnemonicDecoder(%s).Decode" % lang, lambda a: Bip39MnemonicDecoder(L).Decode(a)),
+                  ("Bip39MnemonicDecoder().DecodeWithChecksum", lambda a: Bip39MnemonicDecoder().DecodeWithChecksum(a)),
+                  ("Bip39MnemonicValidator(%s).IsValid" % lang, lambda a: Bip39MnemonicValidator(L).IsValid(a)),
+                  ("Bip39MnemonicValidator().Validate", lambda a: Bip39MnemonicValidator().Validate(a))]
+        n += mnemonic_objects_stable(rep, "BIP-39 %s" % lang, cases, forms, points)
+    return n
+
+
+def _configurations(rng, tier, rep, rpt):
+    """'for every supported language …' holds however the interpreter was started: the encoder, the decoder (language given and
+    auto-detected) and the validator are asked in fresh interpreters with another locale encoding / -OO / another working directory and
+    hash seed; references are the hashlib construction over the lists as this process reads them (tied to the registry by C01Tables)."""
+    from harness.props.mnemonic_common import configurations, in_configuration, task
+    lists = {l: words_of(l) for l in BIP39_LANGS}
+    n = 0
+    facts = {}
+    for config in configurations(rng):
+        tasks, wants = [], []
+        for lang in (BIP39_LANGS if config[0].startswith("the locale") or tier == "thorough" else rng.sample(BIP39_LANGS, 3)):
+            L = Bip39Languages[lang]
+            for _ in range(1 if tier == "quick" else 4):
+                ent = bytes(rng.randrange(256) for _ in range(rng.choice(SIZES)))
+                ws = spec_encode(lists[lang], ent)
+                s = " ".join(ws)
+                single = sum(1 for l in BIP39_LANGS if all(w in lists[l] for w in set(ws))) == 1
+                wb = ws[:-1] + [lists[lang][lists[lang].index(ws[-1]) ^ 1]]             # lowest checksum bit flipped
+                bad = " ".join(wb)
+                single_bad = sum(1 for l in BIP39_LANGS if all(w in lists[l] for w in set(wb))) == 1
+                tasks += [task("Bip39MnemonicGenerator", [L], "FromEntropy", ent), task("Bip39MnemonicDecoder", [L], "Decode", s),
+                          task("Bip39MnemonicDecoder", [None if single else L], "Decode", respell(rng, ws)),
+                          task("Bip39MnemonicValidator", [None if single else L], "IsValid", s), task("Bip39MnemonicValidator", [None if single_bad else L], "IsValid", bad)]
+                wants += [s, ent.hex(), ent.hex(), "True", "False"]
+        info, res = in_configuration(tasks, config)
+        facts[config[0]] = info
+        for t, w, (got, detail) in zip(tasks, wants, res):
+            n += 1
+            if got != w:
+                rep("the BIP-39 codec answers differently in another process configuration — %s (child: preferred encoding %s): %s(%s).%s" % (
+                    config[0], info.get("encoding"), t["cls"], t["ctor"][0][1][1] if t["ctor"][0] else "auto-detected", t["meth"]),
+                    t["arg"][1], (got + " " + detail).strip(), w)
+    rpt.extra["process_configurations"] = facts
+    return n
+
+
 def relations(rng, tier, rpt):
     """(i) encode == the BIP-39 definition computed independently; (ii) decode(lang | auto)(encode(e)) == e;
     (iii) IsValid agrees with Decode; (iv) the live lists are lower-case NFKD-normal without inner whitespace."""
@@ -416,6 +561,9 @@ def relations(rng, tier, rpt):
                 rep("%s on an object reused across languages departs from a fresh object (valid %s sentence)" % (what, lang.name), sent, got, want)
     n += _observation_points(rng, tier, rep)
     n += _first_use(rng, tier, rep)
+    rpt.extra["history_checks"] = _history(rng, tier, rep)
+    rpt.extra["mnemonic_object_checks"] = _mnemonic_objects(rng, tier, rep)
+    rpt.extra["configuration_checks"] = _configurations(rng, tier, rep, rpt)
     # the listed ambiguity witness
     e = bytes.fromhex(F_AUTODETECT)
     m = Bip39MnemonicEncoder(Bip39Languages.FRENCH).Encode(e).ToStr()
@@ -423,7 +571,7 @@ def relations(rng, tier, rpt):
     if a != e.hex():
         rep("Decode(auto)(Encode(e)) != e", "FRENCH " + e.hex(), a, e.hex(), fid="F-autodetect")
     rpt.extra["impl_relation_checks"] = n
-    return bad[:8]
+    return bad[:12]
 
 
 def search_broken(broken, rng):
